@@ -11,6 +11,10 @@ package verifcheck
 //   crash     - crash images of the data directory are taken at the journal point of the delete, at
 //               the start of the cascade and after each of its GUNLINK records; every image must open
 //               and, if the delete itself survived, show no live edge at the deleted node.
+// In the live and close-now modes a third of the deletes are OVERLAPPED: the cascade goroutine is held (verif hook)
+// at its start or at its k-th unlink record while the client executes 1-3 further operations - the re-insertion of
+// the same id (VAdd / VAddBatch: an "update" is delete + add), links and unlinks, also at the deleted node - and is
+// then let go; the edges that were live at the delete and that nobody linked again must be closed when it ends.
 // Oracle: the reference model (edges incident to a deleted node are soft-deleted unless linked again
 // afterwards; edges among other nodes untouched) against VGetLinks, VGetIncoming, VGetRelations,
 // VGetIncomingRelations, VGetEdges, VGetIncomingEdges, VGetConnections, FindPath, VExtractSubgraph
@@ -24,6 +28,7 @@ import (
 	"strings"
 	"sync"
 	"testing"
+	"time"
 
 	"github.com/sanonone/kektordb/internal/verifkit"
 	"github.com/sanonone/kektordb/pkg/engine"
@@ -36,6 +41,26 @@ type c12Case struct {
 }
 
 var c12Nodes = []string{"a", "b", "c", "d", "e"}
+
+// An overlapped delete is a vdel op whose Why is "overlap:<k>"; the ops that directly follow it and whose Why
+// starts with "during" run while the delete's cascade goroutine is held at hook point k (0 = start of the cascade,
+// k>0 = its k-th unlink record, journaled and not yet applied). Marks instead of indices, so a case stays
+// meaningful when ops are removed from it (shrinking, bin/minimize).
+const (
+	c12OverlapMark = "overlap:"
+	c12DuringMark  = "during"
+)
+
+func c12ParkOf(op Op) (int, bool) {
+	if op.K != KDel || !strings.HasPrefix(op.Why, c12OverlapMark) {
+		return 0, false
+	}
+	k := 0
+	if _, err := fmt.Sscanf(strings.TrimPrefix(op.Why, c12OverlapMark), "%d", &k); err != nil || k < 0 {
+		return 0, false
+	}
+	return k, true
+}
 
 func c12Gen() *rapid.Generator[c12Case] {
 	return rapid.Custom(func(t *rapid.T) c12Case {
@@ -51,10 +76,10 @@ func c12Gen() *rapid.Generator[c12Case] {
 		}
 		n := rapid.IntRange(4, 22).Draw(t, "n")
 		deleted := 0
-		link := func(why string) Op {
+		linkIn := func(nodes []string, why string) Op {
 			op := Op{K: KLink, Idx: "i0", Rel: rapid.SampledFrom(uRels).Draw(t, "rel"), W: float32(rapid.SampledFrom([]int{1, 2}).Draw(t, "w")), Why: why}
-			op.ID = rapid.SampledFrom(c12Nodes).Draw(t, "src")
-			op.ID2 = rapid.SampledFrom(c12Nodes).Draw(t, "tgt")
+			op.ID = rapid.SampledFrom(nodes).Draw(t, "src")
+			op.ID2 = rapid.SampledFrom(nodes).Draw(t, "tgt")
 			if rapid.IntRange(0, 3).Draw(t, "inv") == 0 {
 				op.Inv = "ri"
 			}
@@ -63,6 +88,7 @@ func c12Gen() *rapid.Generator[c12Case] {
 			}
 			return op
 		}
+		link := func(why string) Op { return linkIn(c12Nodes, why) }
 		for i := 0; i < n; i++ {
 			switch k := rapid.IntRange(0, 11).Draw(t, "k"); {
 			case k <= 5:
@@ -83,9 +109,46 @@ func c12Gen() *rapid.Generator[c12Case] {
 					continue
 				}
 				id := rapid.SampledFrom(cands).Draw(t, "del")
-				c.Ops = append(c.Ops, Op{K: KDel, Idx: "i0", ID: id})
+				del := Op{K: KDel, Idx: "i0", ID: id}
 				live[id] = false
 				deleted++
+				if c.Mode == "crash" || rapid.IntRange(0, 2).Draw(t, "overlap") != 0 {
+					c.Ops = append(c.Ops, del)
+					continue
+				}
+				// overlapped delete: the cascade goroutine is held at a hook point (its start, or its k-th unlink
+				// record) while the client goes on with 1-3 further operations - typically the re-insertion of
+				// the same id (an "update" is delete + add), links and unlinks - and only then runs to its end.
+				park := rapid.SampledFrom([]int{0, 0, 0, 1, 1, 2, 3}).Draw(t, "park")
+				del.Why = fmt.Sprintf("%s%d", c12OverlapMark, park)
+				c.Ops = append(c.Ops, del)
+				nodes := c12Nodes
+				if park > 0 {
+					// one unlink of the cascade is journaled but not applied yet: stay away from the node's own edges
+					nodes = nil
+					for _, x := range c12Nodes {
+						if x != id {
+							nodes = append(nodes, x)
+						}
+					}
+				}
+				nd := rapid.IntRange(1, 3).Draw(t, "nduring")
+				for j := 0; j < nd; j++ {
+					switch dk := rapid.IntRange(0, 6).Draw(t, "dk"); {
+					case dk <= 2 && !live[id]:
+						if rapid.IntRange(0, 2).Draw(t, "viabatch") == 0 {
+							c.Ops = append(c.Ops, Op{K: KBatch, Idx: "i0", Items: []Item{{ID: id, Vec: []float32{9, 9}}}, Why: c12DuringMark + " re-add"})
+						} else {
+							c.Ops = append(c.Ops, Op{K: KAdd, Idx: "i0", ID: id, Vec: []float32{9, 9}, Why: c12DuringMark + " re-add"})
+						}
+						live[id] = true
+					case dk == 6:
+						op := linkIn(nodes, "")
+						c.Ops = append(c.Ops, Op{K: KUnlink, Idx: "i0", ID: op.ID, ID2: op.ID2, Rel: op.Rel, Hard: rapid.IntRange(0, 3).Draw(t, "hard") == 0, Why: c12DuringMark})
+					default:
+						c.Ops = append(c.Ops, linkIn(nodes, c12DuringMark))
+					}
+				}
 			case k == 10:
 				// re-add a deleted id
 				for _, id := range c12Nodes {
@@ -298,6 +361,211 @@ func c12DeadExplained(e *engine.Engine, d *Dump, states []*Model, lo, hi int) st
 	return ""
 }
 
+// c12Overlap runs VDelete(del.ID) with its cascade goroutine held at hook point `park` while the client executes
+// the ops of `during` (as many of them as are admissible at that point), then lets the cascade run to its end and
+// brings the model up to date. It returns the number of ops of `during` it has executed.
+//
+// What is asserted (from the statement): every edge that was live at the node when it was deleted and that no
+// operation linked again must be closed once the cascade has ended - whatever the client did in the meantime,
+// re-inserting the same id included. Edges at the node that WERE linked (again) inside the window are "explicitly
+// linked again": the cascade may or may not take them along; whichever the engine shows is adopted (live, or closed
+// inside the window). Edges among other nodes follow the ordinary model, i.e. they are untouched.
+//
+// No verdict depends on timing: the cascade is held by the hook (not by sleeping), the client ops run while it is
+// held, and the end of the cascade is the hook-reported end. Only journal-reader operations are admitted inside the
+// window (add, batch, link, unlink): the held goroutine may hold the journal's read lock (k>0), which those share.
+// For k>0 one unlink of the cascade is journaled but not applied; ops that touch the node's own edges are not
+// admitted there (journal order against apply order of two writers of ONE edge is not this property's subject).
+func c12Overlap(r *Runner, del Op, park int, during []Op, labels map[string]bool) (string, int) {
+	const idx = "i0"
+	x, g := del.ID, gid(idx, del.ID)
+	at := "the start of its cascade"
+	if park > 0 {
+		at = fmt.Sprintf("unlink record #%d of its cascade (journaled, not yet applied)", park)
+	}
+	inS := map[*mEdge]bool{} // the edges that are live at the node when it is deleted
+	for _, ed := range r.M.Edges {
+		if ed.D == 0 && (ed.Src == g || ed.Tgt == g) {
+			inS[ed] = true
+		}
+	}
+	var mu sync.Mutex
+	phase, seen := 0, 0 // phase: 0 armed, 1 held or past the hold, 2 the cascade ended without reaching the point
+	parked, ended, release := make(chan struct{}), make(chan struct{}), make(chan struct{})
+	released := false
+	doRelease := func() {
+		if !released {
+			released = true
+			close(release)
+		}
+	}
+	defer doRelease()
+	// while armed the client goroutine is inside VDelete or waiting below, so these three names can only come from
+	// the cascade goroutine; once the cascade is held (or done) every further call is ignored.
+	SetExtraHook(func(name string) {
+		if name != "vdelete.cascade.begin" && name != "gunlink.journaled" && name != "vdelete.cascade.end" {
+			return
+		}
+		mu.Lock()
+		if phase != 0 {
+			mu.Unlock()
+			return
+		}
+		hit := false
+		switch name {
+		case "vdelete.cascade.begin":
+			hit = park == 0
+		case "gunlink.journaled":
+			seen++
+			hit = seen == park
+		default:
+			phase = 2
+			mu.Unlock()
+			close(ended)
+			return
+		}
+		if !hit {
+			mu.Unlock()
+			return
+		}
+		phase = 1
+		mu.Unlock()
+		close(parked)
+		<-release
+	})
+	defer SetExtraHook(nil)
+
+	t0 := time.Now().UnixNano()
+	if err := r.E.VDelete(idx, x); err != nil {
+		return fmt.Sprintf("VDelete(%s) of a live node failed: %v", x, err), 0
+	}
+	r.LastErr = nil
+	r.tracef("%s idx=%s id=%s (overlapped, hold at %d) -> err=<nil>", del.K, idx, x, park)
+	if mi := r.M.Idx[idx]; mi != nil {
+		delete(mi.Live, x)
+	}
+	r.addGhost(idx, x)
+	r.nDeletes++
+	r.NApplied++
+	held := false
+	select {
+	case <-parked:
+		held = true
+	case <-ended:
+	case <-time.After(2 * time.Minute): // same bound as the plain settle; nothing else is running
+		return fmt.Sprintf("the delete cascade of %s neither reached %s nor ended within 2 min with the engine idle", g, at), 0
+	}
+	waitEnd := func() string {
+		deadline := time.Now().Add(2 * time.Minute)
+		for hookCascadeEnd.Load()-r.cascadeBase < r.nDeletes {
+			if time.Now().After(deadline) {
+				return fmt.Sprintf("delete cascade of %s did not finish within 2 min with the engine idle", g)
+			}
+			time.Sleep(100 * time.Microsecond)
+		}
+		return ""
+	}
+	relinked := map[string]bool{}
+	key := func(s, rel, t string) string { return s + "|" + rel + "|" + t }
+	var ran []string
+	used := 0
+	if held {
+		labels["delete-overlapped-by-client-ops"] = true
+		if park == 0 {
+			labels["cascade-held-at-its-start"] = true
+		} else {
+			labels["cascade-held-between-unlinks"] = true
+		}
+		// the engine is quiescent: bring the model level with what the cascade has applied so far
+		now := time.Now().UnixNano()
+		for ed := range inS {
+			d := r.engineDeletedAt(ed.Src, ed.Tgt, ed.Rel, ed.C)
+			if d < 0 || (d > 0 && (d < t0 || d > now)) {
+				return fmt.Sprintf("VDelete(%s), cascade held at %s: edge %s-%s->%s of the deleted node has deleted=%d, want 0 or a time inside the call", x, at, ed.Src, ed.Rel, ed.Tgt, d), 0
+			}
+			if d > 0 {
+				ed.D = d
+				r.M.noteTime(d)
+			}
+		}
+		for _, op := range during {
+			admissible := op.K == KAdd || op.K == KBatch || op.K == KLink || op.K == KUnlink
+			if (op.K == KLink || op.K == KUnlink) && park > 0 && (op.ID == x || op.ID2 == x) {
+				admissible = false
+			}
+			if !admissible {
+				break
+			}
+			if m := r.Step(op); m != "" {
+				return fmt.Sprintf("VDelete(%s), cascade held at %s, then %s(%s,%s): %s", x, at, op.K, op.ID, op.ID2, m), used
+			}
+			used++
+			switch op.K {
+			case KBatch:
+				var ids []string
+				for _, it := range op.Items {
+					ids = append(ids, it.ID)
+				}
+				ran = append(ran, fmt.Sprintf("%s(%s)", op.K, strings.Join(ids, ",")))
+			case KAdd:
+				ran = append(ran, fmt.Sprintf("%s(%s)", op.K, op.ID))
+			default:
+				ran = append(ran, fmt.Sprintf("%s(%s-%s->%s)", op.K, op.ID, op.Rel, op.ID2))
+			}
+			switch op.K {
+			case KAdd, KBatch:
+				if mi := r.M.Idx[idx]; mi != nil && mi.Live[x] != nil {
+					labels["same-id-re-added-inside-cascade-window"] = true
+					if len(inS) > 0 {
+						labels["same-id-re-added-inside-cascade-window-of-a-node-with-edges"] = true
+					}
+				}
+			case KLink:
+				if r.LastErr == nil {
+					relinked[key(gid(idx, op.ID), op.Rel, gid(idx, op.ID2))] = true
+					if op.Inv != "" {
+						relinked[key(gid(idx, op.ID2), op.Inv, gid(idx, op.ID))] = true
+					}
+					if op.ID == x || op.ID2 == x {
+						labels["link-at-the-deleted-node-inside-cascade-window"] = true
+					}
+				}
+			}
+		}
+		doRelease()
+	} else {
+		labels["cascade-ended-before-the-hold-point"] = true
+	}
+	if m := waitEnd(); m != "" {
+		return m, used
+	}
+	SetExtraHook(nil)
+	t1 := time.Now().UnixNano()
+	what := fmt.Sprintf("VDelete(%s) with %v executed while its cascade was held at %s", x, ran, at)
+	if !held {
+		what = fmt.Sprintf("VDelete(%s)", x)
+	}
+	for _, ed := range r.M.Edges {
+		if ed.D != 0 || (ed.Src != g && ed.Tgt != g) {
+			continue
+		}
+		d := r.engineDeletedAt(ed.Src, ed.Tgt, ed.Rel, ed.C)
+		old := inS[ed] && !relinked[key(ed.Src, ed.Rel, ed.Tgt)]
+		switch {
+		case d == 0 && old:
+			return fmt.Sprintf("%s: after the cascade ended, the edge %s-%s->%s, which was live when %s was deleted and which nobody linked again, is still live", what, ed.Src, ed.Rel, ed.Tgt, x), used
+		case d == 0:
+			// linked (again) inside the window and left alone by the cascade
+		case d < t0 || d > t1:
+			return fmt.Sprintf("%s: after the cascade ended, the edge %s-%s->%s at the deleted node has deleted=%d, want a time inside the call", what, ed.Src, ed.Rel, ed.Tgt, d), used
+		default:
+			ed.D = d
+			r.M.noteTime(d)
+		}
+	}
+	return "", used
+}
+
 func c12Run(c c12Case, seed int64) (msg string, labels map[string]bool) {
 	labels = map[string]bool{"mode:" + c.Mode: true}
 	defer func() {
@@ -331,6 +599,7 @@ func c12Run(c c12Case, seed int64) (msg string, labels map[string]bool) {
 	var images []img
 	var mu sync.Mutex
 	seq := 0
+	skip := 0 // ops already executed inside the window of an overlapped delete
 	for i, op := range c.Ops {
 		if op.K == KDel {
 			// richness labels
@@ -375,6 +644,31 @@ func c12Run(c c12Case, seed int64) (msg string, labels map[string]bool) {
 		if op.K == KAdd && deadNow[op.ID] {
 			delete(deadNow, op.ID)
 			labels["re-add-after-delete"] = true
+		}
+		if skip > 0 {
+			skip--
+			states = append(states, r.M.clone())
+			continue
+		}
+		if park, ok := c12ParkOf(op); ok && c.Mode != "crash" && !(c.Mode == "close-now" && i == lastDel) && r.M.Expect(op) == MustOK {
+			// crash mode keeps plain deletes: its images are explained state by state, and a state "inside a window" is none
+			var during []Op
+			for _, d := range c.Ops[i+1:] {
+				if !strings.HasPrefix(d.Why, c12DuringMark) {
+					break
+				}
+				during = append(during, d)
+			}
+			m, used := c12Overlap(r, op, park, during, labels)
+			if m != "" {
+				return m, labels // no step number: the text stays the same while the shrinker removes earlier ops
+			}
+			skip = used
+			states = append(states, r.M.clone())
+			if m := c12Surfaces(r.E, r.M, false); m != "" {
+				return fmt.Sprintf("after step %d %s(%s) and the %d ops inside its cascade window: %s", i, op.K, op.ID, used, m), labels
+			}
+			continue
 		}
 		if i == lastDel && c.Mode == "crash" {
 			imgFloor = floor
@@ -509,7 +803,7 @@ func c12Run(c c12Case, seed int64) (msg string, labels map[string]bool) {
 
 func TestVerif_C12_cascade(t *testing.T) {
 	col := verifkit.New("C12", "cascade",
-		"rapid-generated graph histories on 5 vector nodes x relations r,q (+inverse ri, self edges, props) with 1+ node deletions interleaved with further links, explicit re-links, re-adds, snapshot/rewrite, in three modes: live (cascade end awaited through the verif hook), close-now (Close right after VDelete returns, then Open, then a second restart), crash (crash images at vdel.journaled / cascade begin / every cascade GUNLINK / cascade end, each opened); oracle = reference model vs VGetLinks, VGetIncoming, VGetRelations, VGetIncomingRelations, VGetEdges, VGetIncomingEdges, VGetConnections, FindPath, VExtractSubgraph, graph-scoped VSearch, live and after restart; non-trivial = a deleted node had at least one incoming and one outgoing edge")
+		"rapid-generated graph histories on 5 vector nodes x relations r,q (+inverse ri, self edges, props) with 1+ node deletions interleaved with further links, explicit re-links, re-adds, snapshot/rewrite; a third of the deletes (not in crash mode) overlapped: cascade goroutine held by the verif hook at its start or at its 1st..3rd unlink record while 1-3 client ops run (re-add of the same id by VAdd/VAddBatch, links, unlinks), then released; in three modes: live (cascade end awaited through the verif hook), close-now (Close right after VDelete returns, then Open, then a second restart), crash (crash images at vdel.journaled / cascade begin / every cascade GUNLINK / cascade end, each opened); oracle = reference model vs VGetLinks, VGetIncoming, VGetRelations, VGetIncomingRelations, VGetEdges, VGetIncomingEdges, VGetConnections, FindPath, VExtractSubgraph, graph-scoped VSearch, live and after restart; non-trivial = a deleted node had at least one incoming and one outgoing edge")
 	defer col.Finish()
 	if rp := verifkit.ReplayPath(); rp != "" {
 		if verifkit.ReplayPart(rp) != "cascade" {
